@@ -532,6 +532,14 @@ impl Runtime {
         }
     }
 
+    /// The thread cannot do anything useful right now (a failed `try-mutex`, a poll that says
+    /// "busy", a pause): it gives way to the others.
+    fn yield_point(&self) {
+        if self.concurrent {
+            shuttle::thread::yield_now();
+        }
+    }
+
     pub fn destination(&self, port: usize) -> String {
         self.ports.lock().unwrap().get(port).map(|p| p.dest.clone()).unwrap_or_default()
     }
@@ -1687,8 +1695,8 @@ impl Runtime {
             "identity" => Ok(args.first().cloned().unwrap_or(Val::Unspec)),
             "const" => unsupported("const"),
             "usleep" | "sleep" | "yield" => {
-                // a pause is a scheduling point and nothing else
-                self.point();
+                // a pause gives way to the other threads and does nothing else
+                self.yield_point();
                 Ok(Val::Unspec)
             }
             "current-output-port" | "open-file" => {
@@ -1756,6 +1764,10 @@ impl Runtime {
                 Some(Val::Mutex(m)) => {
                     self.point();
                     let owner = self.cell(*m, name)?.owner.load(Ordering::SeqCst);
+                    if owner != 0 && owner != ctx.thread + 1 {
+                        // somebody else holds it: a caller that polls gives way
+                        self.yield_point();
+                    }
                     Ok(if name == "mutex-locked?" {
                         Val::Bool(owner != 0)
                     } else if owner == 0 {
@@ -1793,6 +1805,8 @@ impl Runtime {
                         cell.owner.store(ctx.thread + 1, Ordering::SeqCst);
                         cell.depth.store(1, Ordering::SeqCst);
                         self.ev(Ev::Lock { thread: ctx.thread, mutex: *m });
+                    } else {
+                        self.yield_point();
                     }
                     Ok(Val::Bool(got))
                 }
